@@ -64,4 +64,11 @@ TEXT = {
         "note": COMMON_NOTE,
         "technique": "Coq proof (iff characterisations of each value type) + differential correspondence of all accessor methods",
     },
+    "C15": {
+        "text": "Modifiers are a deep embedding (17 exported With* functions), builders are folds defaults ++ user. Theorems for EVERY source packet: reply (opposite opcode, same "
+                "xid/hwtype/chaddr/flags/giaddr, options 82 and 61 echoed iff present non-empty), request-from-offer, renew, release, inform, discover field rules; user modifiers "
+                "of ANY length are applied after the defaults and the last one prevails. All builders x random modifier lists are compared field-for-field with the real code.",
+        "note": COMMON_NOTE,
+        "technique": "Coq proof (fold over a deep embedding of modifiers) + differential correspondence of all New* builders",
+    },
 }
